@@ -21,6 +21,7 @@ import (
 	parser "github.com/openfga/language/pkg/go/transformer"
 	"github.com/pressly/goose/v3"
 	"google.golang.org/protobuf/types/known/structpb"
+	"google.golang.org/protobuf/types/known/wrapperspb"
 
 	"github.com/openfga/openfga/assets"
 	"github.com/openfga/openfga/pkg/server/commands"
@@ -58,9 +59,10 @@ type user
 type group
   relations
     define member: [user]
+    define admin: [user]
 type doc
   relations
-    define viewer: [user, user with c1, user with c2, user:*, user:* with c1, user:* with c2, group#member, group#member with c1, group#member with c2]
+    define viewer: [user, user with c1, user with c2, user:*, user:* with c1, user:* with c2, group, group with c1, group with c2, group#member, group#member with c1, group#member with c2, group#admin, group#admin with c1, group#admin with c2]
     define editor: [user, user with c1, user with c2, user:*, user:* with c1, user:* with c2, group#member, group#member with c1, group#member with c2]
 type folder
   relations
@@ -314,6 +316,103 @@ func GenOp(r *hx.Rand, cmd bool, odd bool, g *GenState) Op {
 	}
 	g.apply(o)
 	return o
+}
+
+// Family is a group of request keys that differ in exactly one place and would share one look-up key if a backend
+// left a field out of its key or joined the fields without separator: the user relation of a userset, the presence
+// of a user relation, and the four boundaries object type|object id, object id|relation, user type|user id,
+// user id|user relation.  CmdOK: every member is valid for ModelDSL (usable through commands.WriteCommand).
+type Family struct {
+	Name  string
+	Keys  []string
+	CmdOK bool
+}
+
+var Families = []Family{
+	{"user-relation", []string{"doc:1#viewer@group:g#member", "doc:1#viewer@group:g#admin"}, true},
+	{"user-relation-or-none", []string{"doc:1#viewer@group:g", "doc:1#viewer@group:g#member", "doc:1#viewer@group:g#admin"}, true},
+	{"objtype|objid", []string{"doc:1x#viewer@user:a", "doc1:x#viewer@user:a"}, false},
+	{"objid|relation", []string{"doc:1#viewer@user:a", "doc:1v#iewer@user:a"}, false},
+	{"usertype|userid", []string{"doc:1#viewer@user:ab", "doc:1#viewer@usera:b"}, false},
+	{"userid|user-relation", []string{"doc:1#viewer@group:g#member", "doc:1#viewer@group:gm#ember"}, false},
+	{"relation|usertype", []string{"doc:1#viewer@user:a", "doc:1#view@eruser:a"}, false},
+}
+
+// GenCollisionOps draws a history around one family: all members are stored by one request, then requests that name
+// several members at once — delete all (every on_missing mode), write all again with the stored conditions (every
+// on_duplicate mode), write all again with one condition changed, delete one + re-write another, delete all plus a
+// key that is not stored, delete the last member alone and then all — re-storing the family when it was removed.
+func GenCollisionOps(r *hx.Rand, cmd bool, st *hx.Stats) []Op {
+	var fams []Family
+	for _, f := range Families {
+		if f.CmdOK || !cmd {
+			fams = append(fams, f)
+		}
+	}
+	fam := hx.Pick(r, fams)
+	if st != nil {
+		st.Inc("family-" + fam.Name)
+	}
+	keys := append([]string{}, fam.Keys...)
+	if r.Chance(1, 3) {
+		hx.Shuffle(r, keys)
+	}
+	conds := make([][2]string, len(keys))
+	for i := range keys {
+		conds[i] = Conds[0]
+		if r.Chance(1, 2) {
+			conds[i] = hx.Pick(r, Conds)
+		}
+	}
+	wtoks := func(cs [][2]string) []string {
+		var out []string
+		for i, k := range keys {
+			out = append(out, k+"~"+cs[i][0]+"~"+cs[i][1])
+		}
+		return out
+	}
+	modes := []string{"_", "error", "ignore"}
+	storeAll := Op{OnMissing: "_", OnDuplicate: hx.Pick(r, modes), Writes: wtoks(conds)}
+	ops := []Op{storeAll}
+	stored := true
+	restore := func() {
+		if !stored {
+			ops = append(ops, Op{OnMissing: "_", OnDuplicate: "ignore", Writes: wtoks(conds)})
+			stored = true
+		}
+	}
+	n := 3 + r.Intn(3)
+	for i := 0; i < n; i++ {
+		restore()
+		switch r.Intn(6) {
+		case 0: // delete every member in one request
+			ops = append(ops, Op{OnMissing: hx.Pick(r, modes), OnDuplicate: "_", Deletes: append([]string{}, keys...)})
+			stored = false
+		case 1: // write every member again, unchanged
+			ops = append(ops, Op{OnMissing: "_", OnDuplicate: hx.Pick(r, modes), Writes: wtoks(conds)})
+		case 2: // write every member again, one condition changed
+			cs := append([][2]string{}, conds...)
+			j := r.Intn(len(cs))
+			for try := 0; try < 6 && cs[j] == conds[j]; try++ {
+				cs[j] = hx.Pick(r, Conds)
+			}
+			ops = append(ops, Op{OnMissing: "_", OnDuplicate: "ignore", Writes: wtoks(cs)})
+		case 3: // delete one member, write another (stored) one
+			j := r.Intn(len(keys))
+			k := (j + 1) % len(keys)
+			ops = append(ops, Op{OnMissing: hx.Pick(r, modes), OnDuplicate: hx.Pick(r, modes), Deletes: []string{keys[j]},
+				Writes: []string{keys[k] + "~" + conds[k][0] + "~" + conds[k][1]}})
+			stored = false // (if the request went through)
+		case 4: // delete every member and a key that is not stored
+			ops = append(ops, Op{OnMissing: hx.Pick(r, modes), OnDuplicate: "_", Deletes: append(append([]string{}, keys...), "doc:2#viewer@user:b")})
+			stored = false
+		case 5: // delete the last member alone, then all of them
+			ops = append(ops, Op{OnMissing: "_", OnDuplicate: "_", Deletes: []string{keys[len(keys)-1]}})
+			ops = append(ops, Op{OnMissing: hx.Pick(r, modes), OnDuplicate: "_", Deletes: append([]string{}, keys...)})
+			stored = false
+		}
+	}
+	return ops
 }
 
 // ---------------------------------------------------------------------------------------------
@@ -913,4 +1012,193 @@ func (s *Session) ChangesPaged(typ string, ps int, desc bool) string {
 // State is "tuples;changes(asc)".
 func (s *Session) State() string {
 	return s.Tuples() + ";" + s.Changes("", 0, false)
+}
+
+// ---------------------------------------------------------------------------------------------
+// C15: paged reads with a horizon, concurrent writers
+
+// ChangesPagedH walks the datastore's changelog page by page (ascending) with the horizon `hz()` evaluated anew for
+// every call, following the continuation tokens until ErrNotFound.
+func (s *Session) ChangesPagedH(typ string, ps int, hz func() time.Duration) string {
+	var out []string
+	tok := ""
+	for i := 0; i < 10000; i++ {
+		ch, next, err := s.DS.ReadChanges(context.Background(), s.Store, storage.ReadChangesFilter{ObjectType: typ, HorizonOffset: hz()},
+			storage.ReadChangesOptions{Pagination: storage.NewPaginationOptions(int32(ps), tok)})
+		if err != nil {
+			if errors.Is(err, storage.ErrNotFound) {
+				break
+			}
+			return "CHGERR:" + ErrClass(err)
+		}
+		for _, c := range ch {
+			out = append(out, fmtChange(c))
+		}
+		tok = next
+	}
+	return unlist(out)
+}
+
+// hzBackend sits between commands.ReadChangesQuery and the datastore.  The query is configured with a horizon of
+// HzMinutes minutes (the option's unit); whenever the filter it builds carries exactly that offset the datastore is
+// called with the *real* offset `real()` (so that the horizon falls into the pause of the history), a zero offset is
+// passed on as zero.  Trace records what the query handed over on each call: q = the configured offset, 0 = none.
+type hzBackend struct {
+	inner storage.OpenFGADatastore
+	real  func() time.Duration
+	Trace []string
+}
+
+const HzMinutes = 7
+
+func (b *hzBackend) ReadChanges(ctx context.Context, store string, filter storage.ReadChangesFilter, options storage.ReadChangesOptions) ([]*openfgav1.TupleChange, string, error) {
+	switch filter.HorizonOffset {
+	case HzMinutes * time.Minute:
+		b.Trace = append(b.Trace, "q")
+		filter.HorizonOffset = b.real()
+	case 0:
+		b.Trace = append(b.Trace, "0")
+	default:
+		b.Trace = append(b.Trace, "other")
+	}
+	return b.inner.ReadChanges(ctx, store, filter, options)
+}
+
+// QueryPaged reads the changelog the way an API client does: commands.ReadChangesQuery (configured horizon, base64
+// tokens) with page size `ps`, following the continuation token until a response carries no changes.
+// Returns the concatenated changes and the horizon trace ("q.q.q").
+func (s *Session) QueryPaged(typ string, ps int, real func() time.Duration) (string, string) {
+	hb := &hzBackend{inner: s.DS, real: real}
+	q := commands.NewReadChangesQuery(hb, commands.WithReadChangeQueryHorizonOffset(HzMinutes))
+	var out []string
+	tok := ""
+	for i := 0; i < 10000; i++ {
+		resp, err := q.Execute(context.Background(), &openfgav1.ReadChangesRequest{StoreId: s.Store, Type: typ,
+			PageSize: wrapperspb.Int32(int32(ps)), ContinuationToken: tok})
+		if err != nil {
+			return "QERR:" + ErrClass(err), strings.Join(hb.Trace, ".")
+		}
+		if len(resp.GetChanges()) == 0 {
+			break
+		}
+		for _, c := range resp.GetChanges() {
+			out = append(out, fmtChange(c))
+		}
+		tok = resp.GetContinuationToken()
+	}
+	return unlist(out), strings.Join(hb.Trace, ".")
+}
+
+// ConcurrentWrites: `prefill` tuples are stored first (in requests of 100, so that every later Write has a store to
+// scan), then `writers` goroutines start together and each makes `per` Write calls of one fresh tuple
+// (doc:w<g>x<j>#viewer@user:a, j ascending).  Afterwards the whole changelog is read in one call and then walked with
+// page size `ps` following the tokens.  The result names no ULID, time or interleaving:
+//
+//	total=<entries in the one-call read> paged=<entries of the walk> missing=<in the one-call read, not in the walk>
+//	repeated=<seen twice in the walk> alien=<in the walk, not in the one-call read> order=<ok|BAD: the walk is not a
+//	subsequence-equal copy of the one-call read> perwriter=<ok|BAD: some writer's entries not in its own order>
+//	tuples=<tuples stored> errors=<failed Write calls>
+func (s *Session) ConcurrentWrites(writers, per, prefill, ps int) string {
+	ctx := context.Background()
+	for start := 0; start < prefill; start += 100 {
+		var ws []*openfgav1.TupleKey
+		for i := start; i < start+100 && i < prefill; i++ {
+			ws = append(ws, &openfgav1.TupleKey{Object: fmt.Sprintf("folder:p%d", i), Relation: "viewer", User: "user:a"})
+		}
+		if err := s.DS.Write(ctx, s.Store, nil, ws); err != nil {
+			return "PREFILL-ERR:" + ErrClass(err)
+		}
+	}
+	var wg sync.WaitGroup
+	start := make(chan struct{})
+	var mu sync.Mutex
+	nerr := 0
+	for g := 0; g < writers; g++ {
+		wg.Add(1)
+		go func(g int) {
+			defer wg.Done()
+			<-start
+			for j := 0; j < per; j++ {
+				tk := &openfgav1.TupleKey{Object: fmt.Sprintf("doc:w%dx%d", g, j), Relation: "viewer", User: "user:a"}
+				if err := s.DS.Write(ctx, s.Store, nil, []*openfgav1.TupleKey{tk}); err != nil {
+					mu.Lock()
+					nerr++
+					mu.Unlock()
+				}
+			}
+		}(g)
+	}
+	close(start)
+	wg.Wait()
+	big := int32(prefill + writers*per + 100)
+	full, _, err := s.DS.ReadChanges(ctx, s.Store, storage.ReadChangesFilter{}, storage.ReadChangesOptions{Pagination: storage.NewPaginationOptions(big, "")})
+	if err != nil {
+		return "CHGERR:" + ErrClass(err)
+	}
+	var fullS []string
+	for _, c := range full {
+		fullS = append(fullS, fmtChange(c))
+	}
+	var walk []string
+	tok := ""
+	for i := 0; i < 100000; i++ {
+		ch, next, err := s.DS.ReadChanges(ctx, s.Store, storage.ReadChangesFilter{}, storage.ReadChangesOptions{Pagination: storage.NewPaginationOptions(int32(ps), tok)})
+		if err != nil {
+			if errors.Is(err, storage.ErrNotFound) {
+				break
+			}
+			return "CHGERR:" + ErrClass(err)
+		}
+		for _, c := range ch {
+			walk = append(walk, fmtChange(c))
+		}
+		tok = next
+	}
+	inFull := map[string]int{}
+	for _, x := range fullS {
+		inFull[x]++
+	}
+	seen := map[string]int{}
+	repeated, alien := 0, 0
+	for _, x := range walk {
+		seen[x]++
+		if seen[x] == 2 {
+			repeated++
+		}
+		if inFull[x] == 0 {
+			alien++
+		}
+	}
+	missing := 0
+	for _, x := range fullS {
+		if seen[x] == 0 {
+			missing++
+		}
+	}
+	order := "ok"
+	if strings.Join(walk, ",") != strings.Join(fullS, ",") {
+		order = "BAD"
+	}
+	perw := "ok"
+	last := map[string]int{}
+	for _, x := range fullS {
+		if !strings.HasPrefix(x, "+doc:w") {
+			continue
+		}
+		var g, j int
+		if _, err := fmt.Sscanf(x, "+doc:w%dx%d#", &g, &j); err != nil {
+			continue
+		}
+		k := fmt.Sprint(g)
+		if l, ok := last[k]; ok && j <= l {
+			perw = "BAD"
+		}
+		last[k] = j
+	}
+	page, _, err := s.DS.ReadPage(ctx, s.Store, storage.ReadFilter{}, storage.ReadPageOptions{Pagination: storage.NewPaginationOptions(big, "")})
+	if err != nil {
+		return "READERR:" + ErrClass(err)
+	}
+	return fmt.Sprintf("total=%d paged=%d missing=%d repeated=%d alien=%d order=%s perwriter=%s tuples=%d errors=%d",
+		len(fullS), len(walk), missing, repeated, alien, order, perw, len(page), nerr)
 }
